@@ -702,7 +702,7 @@ open Gallia.Lifecycle.DbFault
 /-- For ANY fault point (call, index of the awaited statement - no bound -, statement fails / Ctrl-C while it is awaited), any
     command kind and whatever the command's own code ends with: the run of the model satisfies every demand of the property
     (exit code from the mapping, the run entry absent or completed with that very code, connection closed, finally block
-    run to its end) exactly when the fault point is not one of the three recorded ones (`Fault.bad`). -/
+    run to its end) exactly when the fault point is not the recorded one (`Fault.bad`: Ctrl-C at the INSERT). -/
 theorem dbfault_consistent_iff (k : Kind) (f : Fault) (body : Option Exc) :
     DbFault.violations k (some f) body (run k (some f) body) = [] ↔ f.bad = false := by
   obtain ⟨c, i, m⟩ := f
@@ -741,7 +741,8 @@ example : run .plain (some ⟨.insert, 1, .raise⟩) none = ⟨.ret 70, some (so
     ∧ (⟨.insert, 1, .raise⟩ : Fault).bad = false
     ∧ run .plain (some ⟨.insert, 1, .cancel⟩) (some (.sysExit 3)) = ⟨.ret 130, some (some 130), true, true, true⟩
     ∧ run .uds (some ⟨.insert, 0, .cancel⟩) none = ⟨.ret 130, some none, true, true, true⟩
-    ∧ (run .plain (some ⟨.complete, 1, .cancel⟩) none).exit = .escCancelled
+    ∧ run .plain (some ⟨.complete, 0, .cancel⟩) (some (.sysExit 3)) = ⟨.ret 3, some (some 3), true, true, true⟩
+    ∧ run .plain (some ⟨.complete, 0, .raise⟩) none = ⟨.ret 0, some none, true, true, true⟩
     ∧ run .plain (some ⟨.disconnect, 7, .raise⟩) (some (.sysExit 4)) = ⟨.ret 4, some (some 4), true, true, false⟩ := by decide
 
 end DbFaults
